@@ -311,6 +311,7 @@ func check(prop string, args []string) int {
 		}, nil, time.Since(t0).Seconds(), 0)
 		return 0
 	}
+	debugRun = *only != "" || *noNative
 	var hnames []string
 	for name, m := range ld.pkg.Members {
 		if f, ok := m.(*ssa.Function); ok && strings.HasPrefix(name, "vH_"+prop+"_") && f.Blocks != nil {
@@ -674,10 +675,19 @@ func writeEvidence(prop, tier string, seed int, cov map[string]interface{}, assu
 	if assumptions == nil {
 		ev["assumptions"] = []string{}
 	}
-	os.MkdirAll(filepath.Join(verifDir, "evidence"), 0o755)
 	b, _ := json.MarshalIndent(ev, "", " ")
+	if debugRun {
+		// a partial run (--only, --no-native) never replaces the evidence of a full one
+		os.MkdirAll(filepath.Join(verifDir, ".work"), 0o755)
+		os.WriteFile(filepath.Join(verifDir, ".work", prop+".partial-evidence.json"), b, 0o644)
+		return
+	}
+	os.MkdirAll(filepath.Join(verifDir, "evidence"), 0o755)
 	os.WriteFile(filepath.Join(verifDir, "evidence", prop+".json"), b, 0o644)
 }
+
+// debugRun: set for partial runs (--only, --no-native).
+var debugRun bool
 
 // solverFor picks the incremental back end (z3 4.8.12 unless overridden; queries it leaves
 // unknown go to the cvc5 / z3 5.1 portfolio).
